@@ -43,6 +43,12 @@ type hostEntry struct {
 	calls int
 }
 
+type dialPlan struct {
+	addr string
+	plan []int // per dial attempt: 0 accept, 1 refuse, 2 accept but every write fails; the last outcome repeats
+	pos  int
+}
+
 type dialRule struct {
 	addr       string
 	refuse     int // next n dials refused; <0: all
@@ -59,6 +65,7 @@ type Fabric struct {
 	listeners []*TCPListener
 	conns     []*TCPConn
 	rules     []dialRule
+	plans     []dialPlan
 	Dials     int // number of dial attempts made
 	// DriverMode: sockets created while set belong to the driver (peers)
 	DriverMode bool
@@ -821,6 +828,29 @@ func SetDialRule(addr string, refuse, failWrites int) {
 	Fab.rules = append(Fab.rules, dialRule{addr: addr, refuse: refuse, failWrites: failWrites})
 }
 
+// SetDialPlan scripts successive dial attempts towards addr: 0 accept, 1 refuse, 2 accept but
+// every write on the dialling side fails; the last outcome repeats.
+//
+//go:norace
+func SetDialPlan(addr string, plan []int) {
+	cp := make([]int, len(plan))
+	for i := range plan {
+		cp[i] = plan[i]
+	}
+	Fab.plans = append(Fab.plans, dialPlan{addr: addr, plan: cp})
+}
+
+// PlanPositions: how many entries of each dial plan have been consumed.
+//
+//go:norace
+func (f *Fabric) PlanPositions() []int {
+	out := make([]int, len(f.plans))
+	for i := range f.plans {
+		out[i] = f.plans[i].pos
+	}
+	return out
+}
+
 //go:norace
 func dial(laddr, raddr *net.TCPAddr) (*TCPConn, error) {
 	if Fab == nil {
@@ -838,6 +868,25 @@ func dial(laddr, raddr *net.TCPAddr) (*TCPConn, error) {
 	// every dial attempt is visible in the packet log (even a refused one)
 	addLog(Packet{Proto: "dial", To: key, Driver: Fab.DriverMode})
 	failWrites := 0
+	if !Fab.DriverMode {
+		for i := range Fab.plans {
+			pl := &Fab.plans[i]
+			if pl.addr != key || len(pl.plan) == 0 {
+				continue
+			}
+			k := pl.pos
+			if k >= len(pl.plan) {
+				k = len(pl.plan) - 1
+			}
+			pl.pos++
+			switch pl.plan[k] {
+			case 1:
+				return nil, fmt.Errorf("dial tcp %s: connect: connection refused (sim fault)", key)
+			case 2:
+				failWrites = -1
+			}
+		}
+	}
 	for i := range Fab.rules {
 		r := &Fab.rules[i]
 		if r.addr != key {
